@@ -293,6 +293,15 @@ def r3_swaps(ctx):
             want2 = "Ord::min(melmint::pro_rata(%s.%s, %s($2.outputs, 0).value.0, %s), MAX_COINVAL)" % (
                 SW, comp, IDX, sig(q.novers((tl if is_left else tr)[0][1])))
             ok = got in (want, want2) or got in (want.replace("Ord::min(", "").replace(", MAX_COINVAL)", ""), want2.replace("Ord::min(", "").replace(", MAX_COINVAL)", ""))
+            # `sig` prints every closure as `closure[captures]`: the two side totals (folds over the same batch with different term closures) look alike in it.
+            # Which total divides is decided on the expressions themselves.
+            mine_total, other_total = (tl, tr) if is_left else (tr, tl)
+            if ok and q.novers(mine_total[0][1]) != q.novers(other_total[0][1]):
+                dens = []
+                q.contains(q.novers(v), lambda y: (dens.append(y[2][2]) if q.is_call(y, "melmint::pro_rata") and len(y[2]) == 3 else
+                                                   dens.append(y[2][1]) if q.is_call(y, "Ratio::new", "new") and len(y[2]) == 2 else None) and False)
+                if dens and all(q.novers(mir.strip(d)) == q.novers(other_total[0][1]) for d in dens):
+                    ok = False
         r.check(bool(ok), "rewrite/%s/value" % lab, "payout = multiply_frac(swap_many.%s, own/%s)" % (comp, tot),
                 "payout of a %s is %s" % (lab, sig(q.novers(q.subst(vals[0], {}, caps)))[:260] if vals else "missing"))
     for bi, e in q.call_exprs(c, "CoinMapping::insert_coin"):
@@ -546,7 +555,7 @@ def shared(ctx):
     """'each participant receives their pro-rata share rounded down': the share helper pro_rata / multiply_frac is exactly floor(x·mine/total) (C01.R6)"""
     from rules.engine import core
     from rules.props import c01
-    core.import_rules(ctx, [c01.r6_floor], "X01")
+    core.import_rules(ctx, [c01.r6_floor, c01.r10_no_wraparound], "X01")   # a batch total that wraps prices the whole batch against almost nothing
 
 
 RULES = [r1_selection_atoms, r2_canonical_keys, r3_swaps, r3_deposits, r3_withdrawals, r5_only_selected, r6_stage_order, shared]
